@@ -151,9 +151,16 @@ def run(ck, R, facts, cg, roots, prop_label, stop=None, class_filter=("todo", "d
     armed = [s for s in sites if s.cls in class_filter]
     covcache = {}
     seen = set()
+    from collections import Counter
+
+    per_key = Counter()
+    for s in {(s.fn.path, id(s.term)): s for s in armed}.values():
+        per_key[s.key()] += 1
     for s in sorted(armed, key=lambda s: s.key()):
         fn = s.fn
-        key = "site|" + s.key()
+        # keyed by owner type / module, macro and message; the number of sites that share them is part of the key, so
+        # that one more site with the same message is not covered by an audited one
+        key = "site|" + s.key() + ("|x%d" % per_key[s.key()] if per_key[s.key()] > 1 else "")
         if key in seen:
             continue
         seen.add(key)
